@@ -203,17 +203,28 @@ def run(tier, seed):
         else:
             # .sym / .nl : parse lines, compare with the Model and with the reference selection
             lines_got = []
+            unparsed = []
             for pth, data in files.items():
                 for ln in data.decode().split("\n"):
                     if not ln:
                         continue
+                    # (hex digits in either case, any number of leading zeros: the consumers accept both)
                     if kind == "sym":
-                        m = re.match(r"(?:([0-9A-F]+):)?([0-9A-F]{4}) (.*)$", ln)
+                        m = re.match(r"(?:([0-9A-Fa-f]+):)?([0-9A-Fa-f]{4}) (.*)$", ln)
+                        if not m:
+                            unparsed.append(ln)
+                            continue
                         lines_got.append((m.group(1) and int(m.group(1), 16), int(m.group(2), 16), m.group(3)))
                     else:
-                        m = re.match(r"\$([0-9A-F]{4})#(.*)#$", ln)
-                        bank = re.search(r"\.([0-9A-F]+)\.nl$", pth)
+                        m = re.match(r"\$([0-9A-Fa-f]{4})#(.*)#$", ln)
+                        bank = re.search(r"\.([0-9A-Fa-f]+)\.nl$", pth)
+                        if not m:
+                            unparsed.append(ln)
+                            continue
                         lines_got.append((int(bank.group(1), 16) if bank and not pth.endswith(".ram.nl") else None, int(m.group(1), 16), m.group(2)))
+            if unparsed:
+                chk.violation(f"{kind}:format", f".{kind} export holds lines that are not in the `[bank:]addr name` / `$addr#name#` layout: {unparsed[:3]}\n{src}",
+                              {"arch": arch, "source": src, "lines": unparsed[:10]})
             mrows = []
             for part in re.findall(r"(?:SYM |ram=|prg=)([^ \t]*)", mcontent):
                 for ent in filter(None, part.split(",")):
